@@ -310,6 +310,12 @@ for k, t in R15TXT.items():
     checks[k] = (lv, eng, tech, text + t, note)
 
 R16TXT = {
+ "C01": " Sixteenth round: the frame history alphabet also calls the MACPayload decoder directly on one kept object (what it decodes re-encodes to its input, whatever the object held before).",
+ "C05": " Sixteenth round: the frame history alphabet also calls the MACPayload decoder directly on one kept object (what it decodes re-encodes to its input, whatever the object held before).",
+ "C06": " Sixteenth round: the frame history alphabet also calls the MACPayload decoder directly on one kept object (what it decodes re-encodes to its input, whatever the object held before).",
+ "C08": " Sixteenth round: the frame history alphabet also calls the MACPayload decoder directly on one kept object (what it decodes re-encodes to its input, whatever the object held before).",
+ "C09": " Sixteenth round: the frame history alphabet also calls the MACPayload decoder directly on one kept object (what it decodes re-encodes to its input, whatever the object held before).",
+ "C10": " Sixteenth round: the frame history alphabet also calls the MACPayload decoder directly on one kept object (what it decodes re-encodes to its input, whatever the object held before).",
  "C12": " Sixteenth round: the channel histories also configure an unused CFList slot as a disabled 0 Hz placeholder channel between custom channels (uplink and downlink lists must stay index-aligned).",
 }
 for k, t in R16TXT.items():
